@@ -36,6 +36,9 @@ def cases(tier, seed):
                 yield f"C07|{ch}|{par}|{'complex' if cplx else 'real'}", {"kind": "channel", "ch": ch, "par": par, "cplx": cplx, "tier": tier}
     yield "C07|conversions", {"kind": "conv", "tier": tier}
     yield "C07|metric", {"kind": "metric", "tier": tier}
+    for cplx in (False, True):
+        for lay in ("3xN", "Nx3", "2x3xN"):
+            yield f"C07|dims|{lay}|{'complex' if cplx else 'real'}", {"kind": "dims", "lay": lay, "cplx": cplx, "tier": tier}
 
 
 def component_of(p):
@@ -43,7 +46,7 @@ def component_of(p):
 
 
 def execute(p, res):
-    {"channel": channel_case, "conv": conv_case, "metric": metric_case}[p["kind"]](p, res)
+    {"channel": channel_case, "conv": conv_case, "metric": metric_case, "dims": dims_case}[p["kind"]](p, res)
 
 
 def signal(N, power, cplx, shape_kind):
@@ -378,3 +381,64 @@ def metric_case(p, res):
         if max(abs(float(a_) - b_) / b_ for a_, b_ in zip(pw, refp)) > 1e-5:
             v("conversion", f"estimate_signal_power(dim=1) = {pw.tolist()} vs {refp}")
     res.sample({"metric_points": "signal powers x SNRs x real/complex"})
+
+
+def dims_case(p, res):
+    """every spelling of the `dim` argument (positive, negative, int, tuple, None) of add_noise_for_snr / calculate_snr / estimate_signal_power on
+    2-D and 3-D signals whose slices have powers spread over four decades: every slice is calibrated / measured on its own, and two spellings of
+    the same axes give the same numbers.  Only axes of length >= 2048 are reduced, so every slice holds complete quantile grids."""
+    import torch
+    from kaira.utils.snr import add_noise_for_snr, calculate_snr, estimate_signal_power
+    from kmc.rngseam import Quantile, Seam
+    lay, cplx = p["lay"], p["cplx"]
+    N = 2048
+    pw = [1e-2, 1.0, 25.0, 0.3, 4.0, 100.0]
+    if lay == "3xN":
+        X = torch.stack([signal(N, pw[r], cplx, 0) for r in range(3)])
+        forms = {(1,): [1, -1, (1,), (-1,)], (0, 1): [None, (0, 1), (-2, -1), (0, -1), (-2, 1)]}
+    elif lay == "Nx3":
+        X = torch.stack([signal(N, pw[r], cplx, 0) for r in range(3)]).t().contiguous()
+        forms = {(0,): [0, -2, (0,), (-2,)], (0, 1): [None, (1, 0), (-1, -2)]}
+    else:
+        X = torch.stack([torch.stack([signal(N, pw[3 * i + j], cplx, 0) for j in range(3)]) for i in range(2)])
+        forms = {(2,): [2, -1, (2,), (-1,)], (1, 2): [(1, 2), (-2, -1), (1, -1), (-2, 2)], (0, 2): [(0, 2), (-3, -1), (0, -1)], (0, 1, 2): [None, (0, 1, 2), (-3, -2, -1)]}
+    cfg = f"{lay},{'complex' if cplx else 'real'}"
+    v = lambda clause, d, f=None: res.viol("snr-utils", cfg, clause, d, f)  # noqa: E731
+
+    def red(t, axes):
+        return (t.abs().double() ** 2).mean(dim=axes, keepdim=True)
+    for axes, spellings in forms.items():
+        refp = red(X, axes)
+        first = {}
+        for d in spellings:
+            for keep in (False, True):
+                est = estimate_signal_power(X, dim=d, keepdim=keep)
+                want = refp if keep else refp.reshape([s_ for a_, s_ in enumerate(refp.shape) if a_ not in axes])
+                res.ev(1, transitions=1)
+                if d is None and not keep:
+                    want = refp.reshape(())
+                if tuple(est.shape) != tuple(want.shape) and not (d is None and keep):
+                    v("conversion", f"estimate_signal_power(dim={d}, keepdim={keep}) has shape {tuple(est.shape)}, expected {tuple(want.shape)}")
+                elif float(((est.double().reshape(-1) - want.reshape(-1)).abs() / want.reshape(-1)).max()) > 1e-4:
+                    v("conversion", f"estimate_signal_power(dim={d}, keepdim={keep}) = {est.reshape(-1).tolist()[:6]} vs {want.reshape(-1).tolist()[:6]}", {"dim": str(d)})
+            for snr in (-5.0, 10.0, 30.0):
+                with Seam(Quantile()):
+                    Y, Nz = add_noise_for_snr(X, snr, dim=d)
+                res.ev(int(refp.numel()), nontrivial=int(refp.numel()), transitions=2)
+                if tuple(Y.shape) != tuple(X.shape) or Y.dtype != X.dtype:
+                    v("snr", f"add_noise_for_snr(dim={d}) returned shape {tuple(Y.shape)} / dtype {Y.dtype}")
+                    continue
+                if not torch.equal(Y, X + Nz):
+                    v("verbatim", f"add_noise_for_snr(dim={d}): returned noisy signal is not signal + returned noise")
+                got = 10 * torch.log10(refp / red(Nz, axes))
+                worst = float((got - snr).abs().max())
+                if not worst <= 0.05:
+                    v("snr", f"add_noise_for_snr(dim={d}, {snr} dB): per-slice SNRs {[round(g, 3) for g in got.reshape(-1).tolist()]} (slices = axes {axes} reduced)", {"dim": str(d), "snr": snr})
+                meas = calculate_snr(X, Y, dim=d)
+                if meas.numel() != got.numel() or float((meas.double().reshape(-1) - got.reshape(-1)).abs().max()) > 1e-2:
+                    v("metric-agrees", f"calculate_snr(dim={d}) = {meas.reshape(-1).tolist()[:6]} vs per-slice reference {got.reshape(-1).tolist()[:6]}", {"dim": str(d)})
+                if snr not in first:
+                    first[snr] = (d, Nz)
+                elif not torch.allclose(first[snr][1], Nz, rtol=1e-5, atol=0):
+                    v("snr", f"add_noise_for_snr: dim={d} and dim={first[snr][0]} name the same axes but give different noise for the same random answers", {"dim": str(d)})
+    res.sample({"layout": lay, "complex": cplx, "dim_spellings": sum(len(v_) for v_ in forms.values())})
